@@ -46,6 +46,7 @@ class TS:
     self.pyname = None
     self.thread = None
     self.nyield = 0
+    self.last_loc = None
 
 
 class Sched:
@@ -69,6 +70,16 @@ class Sched:
     self.by_ident[threading.get_ident()] = self.main
     self.hooks = {}                   # loc-name -> callable(sched, ts): observation hooks at yield points
     self.on_thread_start = None       # callable(sched, ts) run when a managed thread is started
+    # lasso (livelock cycle) detection: when state_fn is set, the abstract global state is hashed at
+    # every yield point; a repeated state with a fair pick sequence in between is replayed, and
+    # lasso_confirm identical repetitions are a 'livelock-cycle' verdict
+    self.state_fn = None
+    self.seen_states = {}
+    self.picks = []
+    self.lasso = None
+    self.lasso_confirm = 12
+    self.lasso_rejected = set()
+    self.lasso_stats = collections.Counter()
     self.delay = None                 # (thread role/name, loc predicate, remaining steps) single-delay injection
 
   def _new(self, name):
@@ -94,6 +105,69 @@ class Sched:
 
   # -- choice
   def _pick(self, me, cands, me_enabled):
+    L = self.lasso
+    if L is not None:
+      want = L['cycle'][L['pos']]
+      t = next((x for x in cands + ([me] if me_enabled else []) if x.idx == want), None)
+      if t is None:
+        self._lasso_abandon('pick-not-enabled')
+      else:
+        L['pos'] += 1
+        if L['pos'] == len(L['cycle']):
+          L['pos'] = 0
+          L['check'] = True
+        self.picks.append(t.idx)
+        return t
+    t = self._pick_policy(me, cands, me_enabled)
+    if self.state_fn is not None:
+      self.picks.append(t.idx)
+    return t
+
+  def _lasso_abandon(self, why):
+    self.lasso_stats['abandoned:' + why] += 1
+    self.lasso_rejected.add(self.lasso['key'])
+    self.lasso = None
+
+  def _state_key(self):
+    return (self.clock, self.state_fn(), tuple((t.status, t.last_loc, t.desc if isinstance(t.desc, str) else None) for t in self.threads))
+
+  def _lasso_step(self, me):
+    key = self._state_key()
+    L = self.lasso
+    if L is not None:
+      if L['check']:
+        L['check'] = False
+        if key == L['key']:
+          L['confirmed'] += 1
+          if L['confirmed'] >= self.lasso_confirm:
+            self.lasso_stats['confirmed'] += 1
+            names = {t.idx: (t.role or t.name) for t in self.threads}
+            self.verdict_info = {'cycle_threads': [names[i] for i in L['cycle']][:60], 'cycle_len': len(L['cycle']), 'repetitions': L['confirmed'],
+                                 'locations': [str(l) for l in L['locs']][:60], 'blocked': self.blocked_report(), 'steps': self.steps}
+            self.fail('livelock-cycle')
+        else:
+          self._lasso_abandon('state-differs')
+      if self.lasso is not None:
+        if len(L['locs']) < 200 and L['confirmed'] == 0:
+          L['locs'].append((me.role or me.name, me.last_loc))
+        return
+    prev = self.seen_states.get(key)
+    now = len(self.picks)
+    if prev is None or key in self.lasso_rejected:
+      self.seen_states[key] = now
+      return
+    cycle = self.picks[prev:now]
+    self.seen_states[key] = now
+    if not cycle:
+      return
+    enabled_now = set(t.idx for t in self.threads if t.status in ('run', 'blocked') and self.enabled(t))
+    if not enabled_now <= set(cycle):
+      self.lasso_stats['unfair-repeat-ignored'] += 1
+      return
+    self.lasso_stats['candidates'] += 1
+    self.lasso = {'key': key, 'cycle': cycle, 'pos': 0, 'check': False, 'confirmed': 0, 'locs': []}
+
+  def _pick_policy(self, me, cands, me_enabled):
     """cands: enabled threads other than me"""
     pol = self.policy
     if self.rr_after is not None and self.steps >= self.rr_after:
@@ -182,6 +256,9 @@ class Sched:
       return
     self.steps += 1
     me.nyield += 1
+    me.last_loc = loc
+    if self.state_fn is not None:
+      self._lasso_step(me)
     if loc is not None:
       self.locs[loc] += 1
       h = self.hooks.get(loc if isinstance(loc, str) else loc[0])
@@ -243,7 +320,9 @@ class Sched:
   def fail(self, what):
     if not self.verdict:
       self.verdict = what
-      self.verdict_info = {'blocked': self.blocked_report(), 'steps': self.steps, 'clock': self.clock}
+      info = {'blocked': self.blocked_report(), 'steps': self.steps, 'clock': self.clock}
+      info.update(self.verdict_info or {})
+      self.verdict_info = info
     self.aborting = True
     me = self.me()
     if me is self.main:
